@@ -119,6 +119,14 @@ def build(p):
 
             return fn
 
+        ly_dur = {i: ly.get("fn_dur", 0) for i, ly in enumerate(layers, start=1)}
+
+        def sub_of(x):
+            while isinstance(x, Tag):
+                x = x.inner
+            t = getattr(x, "tag", None)
+            return t[0] if isinstance(t, tuple) and isinstance(t[0], int) else -1
+
         def mk_flat_fn(i, mode):
             if mode is None:
                 return None
@@ -132,14 +140,19 @@ def build(p):
                     return Tag(i, x)
                 f = Future()
                 if mode == "later":
-                    H.tap_cancel(f, -1, "inner", i)
+                    j = sub_of(x)
+                    if ly_dur.get(i):
+                        E.vsleep(ly_dur[i])       # the future-returning function itself takes (virtual) time
+                    E.emit("InnerCreated", f=j, k=i)
+                    H.tap_cancel(f, j, "inner", i)
 
                     def later():
                         E.vsleep(50)
                         if f.set_running_or_notify_cancel():
+                            E.emit("InnerRun", f=j, k=i)     # the flat-mapped inner work starts
                             f.set_result(Tag(i, x))
 
-                    E.spawn("env_inner%d" % i, later)
+                    E.spawn("env_inner%d_%d" % (i, j), later)
                 else:
                     f.set_result(Tag(i, x))
                 return f
@@ -158,7 +171,7 @@ def build(p):
                 for d in descriptors:
                     seen = state["poll_seen"].get(id(d), 0) + 1
                     state["poll_seen"][id(d)] = seen
-                    if mode == "second" and seen < 2:
+                    if mode == "never" or (mode == "second" and seen < 2):
                         continue
                     d.yield_result(Tag(i, d.result, "p"))
                 return 0.2
@@ -177,7 +190,7 @@ def build(p):
                    c=7 if ly.get("policy") else (1 if ly.get("block") else 0),
                    xs=[{"tag": 1, "raise": 2, "reraise": 3, "nonfuture": 4, "later": 5, None: 0}[ly.get("fn")],
                        {"tag": 1, "raise": 2, "reraise": 3, None: 0}[ly.get("efn")],
-                       {"first": 1, "second": 2, "raise1": 3, None: 0}[ly.get("mode")]])
+                       {"first": 1, "second": 2, "raise1": 3, "never": 4, None: 0}[ly.get("mode")]])
             if t == "map":
                 ex = Executors.with_map(tap, mk_fn(i, ly.get("fn"), "fn"), error_fn=mk_fn(i, ly.get("efn"), "efn"),
                                         name=nm)
@@ -205,7 +218,15 @@ def build(p):
                 ex = Executors.with_retry(tap, max_attempts=ly.get("max", 3), sleep=ly.get("sleep", 100) / 1000.0,
                                           exponent=1, max_sleep=10, exception_base=H.UserError, name=nm)
             elif t == "poll":
-                ex = Executors.with_poll(tap, mk_poll(i, ly.get("mode", "first")), default_interval=0.2, name=nm)
+                cfn = None
+                if ly.get("cancel_fn") == "false_then_true":
+                    ncf = [0]
+
+                    def cfn(res, ncf=ncf):
+                        ncf[0] += 1
+                        E.emit("FnCall", k=i, s="cancel_fn", a=ncf[0])
+                        return ncf[0] > 1
+                ex = Executors.with_poll(tap, mk_poll(i, ly.get("mode", "first")), cfn, default_interval=0.2, name=nm)
             elif t == "throttle" and ly.get("count_fn"):
                 ncalls = [0]
 
